@@ -79,7 +79,7 @@ def plan(tier, seed):
                 rule=('grids (min,max,step): min in {0,1,2.5} x span in {0.3,1,6,14} x step in {.05,.1,.25,.3,.5,.7,1,2} '
                       '(quick: 5 of the 12 (min,span) pairs); windows (w0, w0+6, w2) for w0 in {0,2,3}, w2 in {.5,1,2,3} plus '
                       'the default and 7 windows with decimal-fraction limits (0-0.3, 2-2.3, 2.6-3.1 ...); group multisets %s with pKa from a 4/8-value lattice; both reference states through '
-                      'the API; -g/-w passed as options for the written file. non-trivial = distinct (multiset, '
+                      'the API; -g/-w passed as options for the written file. real inputs with ions, multi-conformation layouts and custom model pKa, per conformation, incl. the tables of files written for a single conformation; a second query after API edits. non-trivial = distinct (multiset, '
                       'assignment, grid, window) combinations') % ([s for s, _ in sa][-3:],),
                 bounds=dict(grids=len(gs), assignments=len(sa)),
                 samples=[dict(sig='AB', pkas=[3.8, 10.5], grid=[1.0, 2.0, 0.1], window=[0, 14, 2])])
